@@ -200,4 +200,54 @@ theorem decodeResp_raw {b p} (h : decodeResp b = .ok (.rawPos p)) : p = b ∧ ga
   · rename_i hg; cases h; exact ⟨rfl, hg⟩
   · have := parseKind_kind h; simp [Resp.kind?] at this
 
+/-! ### decode after encode -/
+
+theorem u8_of_toNat {x : UInt8} {n : Nat} (h : x.toNat = n) : x = UInt8.ofNat n := by
+  subst h; simp
+
+theorem toBE2_cases (n : Nat) : ∃ a c, toBE n 2 = [a, c] := ⟨_, _, rfl⟩
+theorem toBE3_cases (n : Nat) : ∃ a b c, toBE n 3 = [a, b, c] := ⟨_, _, _, rfl⟩
+
+theorem fromBE_of_toBE2 {n : Nat} {a c : UInt8} (h : toBE n 2 = [a, c]) (hn : n < 0x10000) : fromBE [a, c] = n := by
+  rw [← h]; exact fromBE_toBE n 2 (by simpa using hn)
+
+theorem fromBE_of_toBE3 {n : Nat} {a b c : UInt8} (h : toBE n 3 = [a, b, c]) (hn : n < 0x1000000) :
+    fromBE [a, b, c] = n := by
+  rw [← h]; exact fromBE_toBE n 3 (by simpa using hn)
+
+theorem encRecs_length (l : List (Nat × UInt8)) : (encRecs l).length = 4 * l.length := by
+  induction l with
+  | nil => rfl
+  | cons p rest ih => obtain ⟨d, s⟩ := p; simp [encRecs, ih]; omega
+
+theorem parseRecs_encRecs (l : List (Nat × UInt8)) (h : ∀ p ∈ l, p.1 < 0x1000000) : parseRecs (encRecs l) = some l := by
+  induction l with
+  | nil => rfl
+  | cons p rest ih =>
+    obtain ⟨d, s⟩ := p
+    obtain ⟨a, b, c, habc⟩ := toBE3_cases d
+    have hd : d < 0x1000000 := h (d, s) (by simp)
+    have ih' := ih (fun p hp => h p (by simp [hp]))
+    simp [encRecs, habc, parseRecs, ih', fromBE_of_toBE3 habc hd]
+
+/-- the decoder's verdict from its four ingredients -/
+theorem decodeResp_of {b : Bytes} {e : Entry} {r : Resp} (hd : dispatch b = .ok (some e))
+    (hl : e.minLen ≤ b.length) (hm : ∀ m, e.maxLen = some m → b.length ≤ m)
+    (hs : subGate e b = .ok ()) (hp : parseKind e.kind b = .ok r) : decodeResp b = .ok r := by
+  have hlen : lenGate e b = .ok () := by
+    unfold lenGate
+    rw [if_neg (by omega)]
+    cases hmx : e.maxLen with
+    | none => rfl
+    | some m => have := hm m hmx; simp; omega
+  simp [decodeResp, gate, hd, checkEntry, hlen, hs, hp]
+
+/-- side goals of `decodeResp_of`: length gates and sub-function gate of a concrete registry entry -/
+macro "side" : tactic =>
+  `(tactic| first
+    | rfl
+    | (simp [registry, subGate, encodeResp, encRecs_length]; done)
+    | (simp [registry, subGate, encodeResp, encRecs_length] <;> omega))
+
+
 end Gallia.UdsResp
